@@ -1,3 +1,4 @@
+pub mod capture;
 pub mod normalize;
 pub mod prog;
 pub mod receiver;
@@ -42,6 +43,7 @@ pub fn by_name(name: &str) -> Option<Box<dyn Suite>> {
         "wire" => Box::new(wire::Wire),
         "receiver" => Box::new(receiver::Receiver),
         "prog" => Box::new(prog::Prog),
+        "capture" => Box::new(capture::Capture),
         _ => return None,
     })
 }
